@@ -36,13 +36,27 @@ def num(c):
     assert isinstance(v, int) and not isinstance(v, bool), f'unexpected constant {v!r}'
     return v
 def compare_consts(obj):
-    """ numeric constants of the comparisons of a function, with the operators, in source order """
-    res = []
-    for n in ast.walk(fn_ast(obj)):
+    """ numeric constants of the comparisons of a function, with the operators, in source order; a comparison that is the
+        operand of `not` gets the pseudo-operator "Not" first (`not (1.0 <= x <= 3600.0)` -> ["Not", "LtE", "LtE"], [1, 3600]) """
+    tree = fn_ast(obj)
+    negated = {id(n.operand) for n in ast.walk(tree) if isinstance(n, ast.UnaryOp) and isinstance(n.op, ast.Not)}
+    found = []
+    for n in ast.walk(tree):
         if isinstance(n, ast.Compare):
             consts = [num(c) for c in [n.left] + n.comparators if isinstance(c, ast.Constant) and isinstance(c.value, (int, float)) and not isinstance(c.value, bool)]
-            if consts: res.append([[type(o).__name__ for o in n.ops], consts])
-    return res
+            if consts:
+                ops = (['Not'] if id(n) in negated else []) + [type(o).__name__ for o in n.ops]
+                found.append(((n.lineno, n.col_offset), [ops, consts]))
+    return [x for _, x in sorted(found, key=lambda t: t[0])]
+def synchro_default_shared():
+    """ is the default handed to _get_value for 'synchro_options' the class attribute itself (a shared, mutable list)? """
+    for n in ast.walk(fn_ast(SupvisorsOptions.__init__)):
+        if isinstance(n, ast.Call) and isinstance(n.func, ast.Attribute) and n.func.attr == '_get_value' and len(n.args) >= 3 \
+                and isinstance(n.args[1], ast.Constant) and n.args[1].value == 'synchro_options':
+            arg = n.args[2]
+            return isinstance(arg, (ast.Attribute, ast.Name))
+    raise AssertionError("no _get_value(config, 'synchro_options', ...) call")
+anchor('synchro-default-shared', synchro_default_shared)
 def tuple_arg(obj):
     """ the (min, max) tuple literal passed to to_integer """
     for n in ast.walk(fn_ast(obj)):
@@ -102,6 +116,8 @@ def generate_c18(repo, outdir):
         L.append(f"def {lean} : List String := {lstr(val('enum:' + nm, []))}")
     L.append(f"def loopCheck : Nat := {val('LOOP_CHECK', 0)}")
     L.append(f"def syncDefault : List String := {lstr(val('SYNCHRO_DEFAULT_OPTIONS', []))}")
+    L.append('/-- the default of `synchro_options` handed to `_get_value` is the class attribute itself (shared, mutable) -/')
+    L.append(f"def syncDefaultShared : Bool := {'true' if val('synchro-default-shared', True) else 'false'}")
     L.append(f"def reservedMulticast : List String := {lstr(val('RESERVED_MULTICAST_ADDRESSES', []))}")
     L.append(f"def timeoutBounds : List Int := {lint(val('timeoutBounds', []))}")
     L.append(f"def ticksBounds : List Int := {lint(val('ticksBounds', []))}")
